@@ -305,6 +305,7 @@ func generate(fns []fnInfo, p poolT, cfg hlib.Config, rnd *hlib.Rand) []pcase {
 		}
 	}
 	cases = append(cases, directedCases(byKey)...)
+	cases = append(cases, wrapCases(byKey)...)
 	P := len(p.vals)
 	// pool subsets for the syntax ops: binaries as input, numbers as arguments
 	var bins, nums []int
